@@ -80,6 +80,46 @@ def run_variant(v, tier="quick"):
         shutil.rmtree(tmp, ignore_errors=True)
 
 
+def tree_control(props, label, commands):
+    """generic behaviour-preserving whole-tree control: build the transformed tree with `commands`, then every check must be
+    silent on it with the same number of instances per rule as on the real tree"""
+    tmp = pathlib.Path(tempfile.mkdtemp(prefix=f"nvsa-{label}-"))
+    try:
+        for cmd in commands:
+            r = subprocess.run([sys.executable] + [c.replace("{tree}", str(tmp / "tree")) for c in cmd], capture_output=True, text=True, timeout=300)
+            if r.returncode != 0:
+                return [f"{label}: {cmd[0]} failed: {r.stdout[-300:]} {r.stderr[-300:]}"]
+        all_props = [p.stem for p in sorted((VERIF / "checks").glob("C[0-9][0-9].py"))]
+        wanted = [p for p in all_props if not props or p in props]
+
+        def one(prop):
+            out = []
+            counts = {}
+            for which, root in (("tree", REPO), (label, tmp / "tree")):
+                ev = tmp / f"ev-{which}"
+                rr = subprocess.run([sys.executable, str(VERIF / "check"), prop, "--root", str(root), "--evidence-dir", str(ev)],
+                                    capture_output=True, text=True, timeout=900)
+                if which == label and rr.returncode != 0:
+                    lines = [ln for ln in (rr.stdout + rr.stderr).splitlines() if "violated" in ln or "ANALYSIS" in ln]
+                    out.append(f"{prop}: alarm on the {label} tree (rc={rr.returncode}): " + " | ".join(x.strip()[:200] for x in lines[:3]))
+                try:
+                    d = json.loads((ev / f"{prop}.json").read_text())
+                    counts[which] = {k: v["obligations"] for k, v in d["coverage"]["rules"].items()}
+                except Exception:
+                    counts[which] = None
+            if counts.get("tree") != counts.get(label):
+                out.append(f"{prop}: rule instance counts differ between the tree and its {label} copy: {counts}")
+            return out
+
+        problems = []
+        with ThreadPoolExecutor(max_workers=16) as ex:
+            for res in ex.map(one, wanted):
+                problems.extend(res)
+        return problems
+    finally:
+        shutil.rmtree(tmp, ignore_errors=True)
+
+
 def alpha_control(props):
     """behaviour-preserving control: every local variable of every Python function and every template-local variable
     (set / for targets) renamed -> every check silent, same instance counts"""
@@ -139,6 +179,12 @@ def main(props, jobs=16):
     alpha = alpha_control(props)
     for a in alpha:
         print(f"FAIL alpha-rename control: {a}")
+    eqv = tree_control(props, "equiv-rewrite", [[str(VERIF / "tools" / "equiv_rewrite.py"), "{tree}"]])
+    for a in eqv:
+        print(f"FAIL equiv-rewrite control: {a}")
+    if not eqv:
+        print("ok   equiv-rewrite control: all checks silent on the tree with comparisons mirrored, if/else inverted and modules re-emitted by ast.unparse; instance counts identical")
+    alpha = alpha + eqv
     if not alpha:
         print("ok   alpha-rename control: all checks silent on the tree with every Python local and template-local variable renamed; instance counts identical")
     nb = sum(1 for r in results if r[0]["kind"] == "break")
